@@ -61,6 +61,7 @@ class W(CombinatorialClass[Word]):
         just_prefix: bool = False,
         stats: Iterable[str] = (),
         marked: bool = False,
+        rev: bool = False,
     ):
         # marked: every word carries a mark x, y or z in front (size 0, no statistic);
         # only the three-to-one strategy Unmark applies to such a class
@@ -69,7 +70,11 @@ class W(CombinatorialClass[Word]):
         self.prefix = Word(prefix)
         self.patterns = tuple(sorted(map(Word, patterns)))
         self.just_prefix = bool(just_prefix)
-        self.stats = tuple(sorted("".join(sorted(set(s))) for s in stats))
+        st = sorted("".join(sorted(set(s))) for s in stats)
+        # rev: the statistics are *listed* in reverse order (same names, same values; terms are
+        # keyed by position, so a parent and a child may list the same parameters differently)
+        self.rev = bool(rev) and len(st) >= 2
+        self.stats = tuple(reversed(st)) if self.rev else tuple(st)
         assert len(set(self.stats)) == len(self.stats)
         assert all(s for s in self.stats)
         self._hash = hash((self.prefix, self.patterns, self.alphabet, self.just_prefix, self.stats, self.marked))
@@ -112,6 +117,7 @@ class W(CombinatorialClass[Word]):
             just_prefix=self.just_prefix,
             stats=self.stats,
             marked=self.marked,
+            rev=self.rev,
         )
         d.update(kw)
         return type(self)(**d)
@@ -126,12 +132,13 @@ class W(CombinatorialClass[Word]):
             just_prefix=int(self.just_prefix),
             stats=list(self.stats),
             marked=int(self.marked),
+            rev=int(self.rev),
         )
         return d
 
     @classmethod
     def from_dict(cls, d: dict) -> "W":
-        return cls(d["prefix"], d["patterns"], d["alphabet"], bool(int(d["just_prefix"])), d["stats"], bool(int(d.get("marked", 0))))
+        return cls(d["prefix"], d["patterns"], d["alphabet"], bool(int(d["just_prefix"])), d["stats"], bool(int(d.get("marked", 0))), bool(int(d.get("rev", 0))))
 
     # combinatorial exploration -------------------------------------------------
     def is_empty(self) -> bool:
@@ -222,13 +229,13 @@ class WK(W):
 
     def to_bytes(self) -> bytes:
         return "|".join(
-            [self.prefix, ",".join(self.patterns), "".join(self.alphabet), str(int(self.just_prefix)), ",".join(self.stats), str(int(self.marked))]
+            [self.prefix, ",".join(self.patterns), "".join(self.alphabet), str(int(self.just_prefix)), ",".join(self.stats), str(int(self.marked) + 2 * int(self.rev))]
         ).encode()
 
     @classmethod
     def from_bytes(cls, b: bytes) -> "WK":
         p, pats, al, jp, st, mk = b.decode().split("|")
-        return cls(p, tuple(x for x in pats.split(",") if x), al, jp == "1", tuple(x for x in st.split(",") if x), mk == "1")
+        return cls(p, tuple(x for x in pats.split(",") if x), al, jp == "1", tuple(x for x in st.split(",") if x), int(mk) % 2 == 1, int(mk) >= 2)
 
 
 class WB(W):
@@ -238,7 +245,7 @@ class WB(W):
         import json
 
         return json.dumps(
-            [self.prefix, list(self.patterns), list(self.alphabet), int(self.just_prefix), list(self.stats), int(self.marked)]
+            [self.prefix, list(self.patterns), list(self.alphabet), int(self.just_prefix), list(self.stats), int(self.marked) + 2 * int(self.rev)]
         ).encode()
 
     @classmethod
@@ -246,7 +253,7 @@ class WB(W):
         import json
 
         p, pats, al, jp, st, mk = json.loads(b.decode())
-        return cls(p, pats, al, bool(jp), st, bool(mk))
+        return cls(p, pats, al, bool(jp), st, mk % 2 == 1, mk >= 2)
 
 
 class WC(W):
@@ -318,10 +325,11 @@ class Expand(_JsonMixin, DisjointUnionStrategy[W, Word]):
     statistics); drop_empty=True filters empty children itself and then declares
     possibly_empty=False."""
 
-    SETTINGS = ("k", "norm", "drop_empty", "atom_last")
+    SETTINGS = ("k", "norm", "drop_empty", "atom_last", "flip")
 
-    def __init__(self, k: int = 1, norm: bool = False, drop_empty: bool = False, atom_last: bool = False, **kw):
+    def __init__(self, k: int = 1, norm: bool = False, drop_empty: bool = False, atom_last: bool = False, flip: bool = False, **kw):
         self.k = k
+        self.flip = bool(flip)  # children list their statistics in the other order than the parent
         self.norm = norm
         self.drop_empty = drop_empty
         self.atom_last = atom_last  # the single-word children come after the others
@@ -334,7 +342,7 @@ class Expand(_JsonMixin, DisjointUnionStrategy[W, Word]):
         return d
 
     def _child(self, c: W, prefix: str, just: bool) -> W:
-        ch = c.with_(prefix=prefix, just_prefix=just)
+        ch = c.with_(prefix=prefix, just_prefix=just, rev=(not c.rev) if self.flip else c.rev)
         if self.norm:
             ch = ch.with_(stats=restrict_stats(c.stats, ch.effective_letters())[0])
         return ch
@@ -993,6 +1001,8 @@ def make_pack(name: str) -> StrategyPack:
             expansion = [[RuleFactory()]]
         elif f == "rfac2":
             expansion = [[RuleFactory(foreign_first=True)]]
+        elif f == "flip":  # children list the statistics in the other order
+            expansion = [[Expand(norm=norm, flip=True)]]
         elif f == "rfac3":
             expansion = [[RuleFactory(foreign_k=2)]]
         elif f == "oneway2":  # the same one-child key inserted by a one-way and then by a two-way strategy
